@@ -17,6 +17,9 @@ MUTANTS = [
     {"name": "revert-b9950c3-xor-threads-value", "revert": "b9950c3", "props": ["C09"]},
     {"name": "revert-b467353-enum-unhashable", "revert": "b467353", "props": ["C12"]},
     {"name": "revert-981e4a4-depth-falsy-route", "revert": "981e4a4", "props": ["C18"]},
+    {"name": "revert-4a77e64-fieldfirst-case-variants", "revert": "4a77e64", "props": ["C06"]},
+    {"name": "revert-f57c67c-ignore_required-defaults", "revert": "f57c67c", "props": ["C06"]},
+    {"name": "c06-datafirst-compares-parsed-with-raw", "props": ["C06"], "edits": [{"file": "utype/parser/base.py", "old": "                    if provided[name] != value:", "new": "                    if result.get(name, value) != value:"}]},
     # ---- C01 ------------------------------------------------------------------------------
     {"name": "c01-seq-first-element-unconverted", "props": ["C01"], "edits": [{"file": R, "old": """                try:
                     result.append(
